@@ -24,6 +24,11 @@ func convertTWCC(feedback *rtcp.TransportLayerCC) []acknowledgement {
 		switch chunk := pc.(type) {
 		case *rtcp.RunLengthChunk:
 			for i := uint16(0); i < chunk.RunLength; i++ {
+				// The run length of the last chunk may exceed the packet status
+				// count; only PacketStatusCount statuses (and deltas) are present.
+				if offset >= int(feedback.PacketStatusCount) {
+					return acks
+				}
 				seqNr := feedback.BaseSequenceNumber + uint16(offset) // nolint:gosec
 				offset++
 				switch chunk.PacketStatusSymbol {
@@ -55,6 +60,10 @@ func convertTWCC(feedback *rtcp.TransportLayerCC) []acknowledgement {
 			}
 		case *rtcp.StatusVectorChunk:
 			for _, s := range chunk.SymbolList {
+				// The last status vector chunk is padded beyond the packet status count.
+				if offset >= int(feedback.PacketStatusCount) {
+					return acks
+				}
 				seqNr := feedback.BaseSequenceNumber + uint16(offset) // nolint:gosec
 				offset++
 				switch s {
